@@ -72,6 +72,12 @@ Definition entry_C14 (v:val) : val :=
     | Some d, Some ts => VL [vbools (apply_isin_plain Z.compare d ts); vbools (spec_isin Z.compare d ts)]
     | _, _ => vbad
     end
+  (* isin on an integer column of dtype [lo, hi] (repaired code: FieldDataOps._exact_integer_tests) *)
+  | VL [VZ 5; VZ lo; VZ hi; data; tests] =>
+    match as_list data, as_opts as_Z tests with
+    | Some d, Some ts => VL [vbools (apply_isin_int lo hi d ts); vbools (spec_isin Z.compare d ts)]
+    | _, _ => vbad
+    end
   | VL [VZ 4; VZ 1; data; tests] =>
     match as_list2 data, as_opts as_list tests with
     | Some d, Some ts => VL [vbools (apply_isin_plain lexcmp d ts); vbools (spec_isin lexcmp d ts)]
